@@ -168,10 +168,30 @@ def stream_to_bytes(items, key, world):
                 acc = acc + payload
             world.rec({"k": "srv", "i": i, "it": "f", "op": it['op'], "fin": it.get('fin', 1), "rsv1": it.get('rsv1', 0),
                        "rsv2": it.get('rsv2', 0), "rsv3": it.get('rsv3', 0), "mask": bool(it.get('mask', False)),
-                       "pl": codec.pv(payload), "acc": codec.pv(acc), "len": len(b),
+                       "pl": codec.pv(payload), "acc": codec.pv(acc), "orig": codec.pv(acc), "len": len(b),
                        "off": len(out) + len(b) - len(payload) - getattr(world, 'http_len', 0),
                        "end": len(out) + len(b) - getattr(world, 'http_len', 0),
                        "ann": "huge" if str(it.get('announce', '')).startswith('huge') else "len"})
+        elif t == 'zmsg':
+            # a data message of the simulated RFC 7692 peer: compressed over the peer's context (or sent plain), cut into fragments
+            payload = bytes(it['data'])
+            wire = world.server_deflate(payload) if it.get('z') else payload
+            nf = max(1, int(it.get('frags', 1)))
+            cuts = sorted(set(world.rng.randrange(0, len(wire) + 1) for _ in range(nf - 1))) if nf > 1 else []
+            pieces = [wire[a:b_] for a, b_ in zip([0] + cuts, cuts + [len(wire)])]
+            b = b''
+            for j, piece in enumerate(pieces):
+                fb = codec.encode_frame(it['op'] if j == 0 else 0, piece, fin=1 if j == len(pieces) - 1 else 0,
+                                        rsv1=1 if (it.get('z') and j == 0) else 0)
+                acc = piece if j == 0 else acc + piece
+                if j < len(pieces) - 1:
+                    ends.append(len(out) + len(b) + len(fb))
+                world.rec({"k": "srv", "i": len(ends), "it": "f", "op": it['op'] if j == 0 else 0, "fin": 1 if j == len(pieces) - 1 else 0,
+                           "rsv1": 1 if (it.get('z') and j == 0) else 0, "rsv2": 0, "rsv3": 0, "mask": False, "pl": codec.pv(piece),
+                           "acc": codec.pv(acc), "orig": codec.pv(payload), "len": len(fb), "ann": "len",
+                           "off": len(out) + len(b) + len(fb) - len(piece) - getattr(world, 'http_len', 0),
+                           "end": len(out) + len(b) + len(fb) - getattr(world, 'http_len', 0)})
+                b += fb
         elif t == 'raw':
             b = bytes(it['b'])
             world.rec({"k": "srv", "i": i, "it": "raw", "len": len(b)})
